@@ -237,6 +237,58 @@ def output_validated(F, b):
     return fp is not None and any((callee(t) or {}).get('def') == fp.defpath for _, t in b.calls())
 
 
+ORDER_OPS = ('Lt', 'Le', 'Gt', 'Ge')
+
+
+def check_supplied_normalization(ctx, F, b, role_name):
+    """A caller-supplied scalar that stands in for a quantity the function could compute from its other argument (the
+    `normalization: Option<F>` of the float-table ingesters, documented as "the sum of the probabilities") is redundant
+    input.  If it is only checked in isolation (finite, positive), a value smaller than the real sum scales the table past
+    1 << PRECISION: the last symbols get zero or wrapped probabilities (the models then call into_nonzero_unchecked(0)).
+    Rule: on every accepting path whose result depends on the supplied value, some ordering comparison relates it to a
+    data-dependent term."""
+    sig = b.raw.get('sig') or ''
+    if 'Option<' not in sig:
+        return
+    key = 'R4/supplied-normalization/' + (('validator:' + role_name) if role_name else b.defpath)
+    role = 'a caller-supplied normalization is related to the table it is supposed to normalize'
+    opt_args = [i for i in range(1, b.arg_count + 1) if 'Option<' in F.ty_s(b.local_ty(i))]
+    if len(opt_args) != 1:
+        return ctx.unresolved('R4', role, b.defpath, 'expected one Option argument', key=key)
+    k = opt_args[0]
+    is_arg = lambda x: isinstance(x, tuple) and x and ((x[0] == 'arg' and x[1] == k) or (x[0] == 'in' and x[1][0] == k))
+    is_data = lambda x: isinstance(x, tuple) and x and ((x[0] in ('arg',) and x[1] != k) or (x[0] == 'in' and x[1][0] != k) or x[0] == 'loop')
+    ev, paths = rules.evaluate(b)
+    n_dep = 0
+    verdicts = []
+    for r in paths or []:
+        if r.end != 'return' or r.ret is None or rules.ret_shape(r.ret)[0] != 'Ok':
+            continue
+        if not sym.contains(r.ret, is_arg):
+            continue
+        n_dep += 1
+        related = False
+        in_closure = False
+        for t, v, _ in r.preds:
+            for y in sym.subterms(t):
+                if isinstance(y, tuple) and y and y[0] == 'bin' and y[1].split('.')[0] in ORDER_OPS:
+                    a_has = sym.contains(y[2], is_arg), sym.contains(y[3], is_arg)
+                    d_has = sym.contains(y[2], is_data), sym.contains(y[3], is_data)
+                    if (a_has[0] and d_has[1]) or (a_has[1] and d_has[0]):
+                        related = True
+                if isinstance(y, tuple) and y and y[0] == 'call' and any(isinstance(a, tuple) and a and a[0] == 'agg' and isinstance(a[1], tuple) and a[1][0] == 'closure' and sym.contains(a, is_arg) for a in y[2]):
+                    in_closure = True
+        verdicts.append('ok' if related else ('unres' if in_closure else 'bad'))
+    if not n_dep:
+        return ctx.ok('R4', role, b.defpath, 'no accepting path depends on the supplied value', key=key)
+    if 'bad' in verdicts:
+        return ctx.bad('R4', role, b.defpath, 'the supplied normalization is only checked in isolation (is_normal, is_sign_positive); nothing compares it with the probabilities: a value below their sum '
+                       '(e.g. [1.0, 1.0] with Some(0.9999999)) scales the cumulative table past 1 << PRECISION, so the last symbol gets probability zero (or the table wraps)', key=key, loc=rules.loc(b))
+    if 'unres' in verdicts:
+        return ctx.unresolved('R4', role, b.defpath, 'the supplied value is handed to a closure', key=key)
+    return ctx.ok('R4', role, b.defpath, '%d accepting path(s) depend on the supplied value; each compares it with a data-dependent term' % n_dep, key=key)
+
+
 def check_sibling_agreement(ctx, F):
     ingesters = []
     for b in F.bodies:
@@ -264,6 +316,7 @@ def check_sibling_agreement(ctx, F):
             ctx.bad('R4', role, b.defpath, 'entries are only tested with `x < 0`, which a NaN entry passes, while the normalization may be supplied by the caller (so it does not catch the NaN either): the resulting cdf is not monotone', key=key, loc=rules.loc(b))
         else:
             ctx.bad('R4', role, b.defpath, 'no element is ever compared with zero and the resulting cdf is not validated: a negative weight (e.g. [3.0, -2.0, 1.0], positive sum) yields a non-monotone cdf', key=key, loc=rules.loc(b))
+        check_supplied_normalization(ctx, F, b, role_name)
         k2 = 'R4/length-guard/' + (('validator:' + role_name) if role_name else b.defpath)
         (ctx.ok if has_len_guard(F, b) else ctx.bad)('R4', 'tables with fewer than two entries are rejected', b.defpath,
                                                      'len < 2 guard present' if has_len_guard(F, b) else 'no `len < 2` rejection found', key=k2)
